@@ -345,6 +345,19 @@ def run(repo, rep, tier):
                   sample={'rule': 'drift', 'scenario': desc, 'paths': len(finals)} if want_label is None else None)
     rep.samples.append({'rule': 'drift', 'scenarios': len(scenarios), 'paths': npaths})
 
+    # ---- rule 3c: the CA type / size a generated policy carries are the ones of the presented certificate ---------------------------------
+    # (Policy.create trims CA fields that are empty; a certificate whose CA is not parsed yields a policy without them, and CA drift then passes.)
+    # Shared with C11: recv_reply's walk over the host key blob interpreted per layout (props/_hostkey_rating.blob_layout_problems).
+    from props import _hostkey_rating
+    _rr2, _ncases, _probs = _hostkey_rating.blob_layout_problems(repo)
+    rep.saw(_rr2)
+    for _kt, _msg in _probs:
+        if '-cert-' in _kt:
+            rep.check('ca-capture', 'CA of %s certificates is captured for the policy' % _kt, False, _rr2,
+                      'a policy made from a peer with a %s host certificate does not pin its CA: %s -- a different CA key type or size then passes the policy' % (_kt, _msg), stmt='CA capture %s' % _kt)
+    if not [1 for k, m in _probs if '-cert-' in k]:
+        rep.ob('ca-capture', 'certificate layouts: CA parser entered at the serial number and its result stored (%d layouts)' % _ncases, True)
+
     # ---- rule 4: built-in policy data ----------------------------------------------------------------------------------------------
     pol = ce.lookup('builtin_policies', 'BUILTIN_POLICIES')
     pnode = repo.mod('builtin_policies').tree.body[-1]
